@@ -15,6 +15,9 @@ theorem armOnSuccess_row? (r : State × Out) (exp : Nat) (c k : String) : (armOn
 theorem armOnSuccess_feeds (r : State × Out) (exp : Nat) : (armOnSuccess r exp).1.feeds = r.1.feeds := by
   unfold armOnSuccess; split <;> rfl
 
+theorem armOnSuccess_hlc (r : State × Out) (exp : Nat) : (armOnSuccess r exp).1.hlc = r.1.hlc := by
+  unfold armOnSuccess; split <;> rfl
+
 theorem armOnSuccess_snd (r : State × Out) (exp : Nat) : (armOnSuccess r exp).2 = r.2 := by
   unfold armOnSuccess; split <;> rfl
 
